@@ -1861,6 +1861,26 @@ func (t *itype) lookupMethod2(name string, seen map[*itype]bool) (*node, []int) 
 	return m, index
 }
 
+// methodCount returns the number of methods of the given name which are declared
+// at the given depth in the embedded fields of t (0 for the methods of t itself).
+func (t *itype) methodCount(name string, depth int) (c int) {
+	for t.val != nil && (t.cat == ptrT || t.cat == linkedT && t.getMethod(name) == nil) {
+		t = t.val
+	}
+	if depth == 0 {
+		if t.getMethod(name) != nil {
+			c++
+		}
+		return c
+	}
+	for _, f := range t.field {
+		if f.embed {
+			c += f.typ.methodCount(name, depth-1)
+		}
+	}
+	return c
+}
+
 // interfaceMethod returns type of method matching an interface method name (not as a concrete method).
 func (t *itype) interfaceMethod(name string) *itype {
 	return t.interfaceMethod2(name, nil)
